@@ -697,6 +697,10 @@ func (c *Client) receipts(ctx context.Context, url string, bm blockmap, start, l
 	}
 	for i := range resps {
 		if len(resps[i].Result) == 0 {
+			if b, ok := bm[start+uint64(i)]; ok && len(b.Txs) > 0 {
+				const tag = "eth_getBlockReceipts no receipts for block with transactions. num=%d txs=%d"
+				return fmt.Errorf(tag, b.Num(), len(b.Txs))
+			}
 			slog.ErrorContext(ctx, "no rpc error but empty result")
 			continue
 		}
@@ -708,6 +712,10 @@ func (c *Client) receipts(ctx context.Context, url string, bm blockmap, start, l
 		b, ok := bm[blockNum]
 		if !ok {
 			return fmt.Errorf("block not found")
+		}
+		if len(b.Header.Hash) == 32 && !bytes.Equal(b.Header.Hash, resps[i].Result[0].BlockHash) {
+			const tag = "eth_getBlockReceipts block hash mismatch. num=%d header=%.4x receipts=%.4x"
+			return fmt.Errorf(tag, blockNum, b.Header.Hash, resps[i].Result[0].BlockHash)
 		}
 		b.Header.Hash.Write(resps[i].Result[0].BlockHash)
 		for j := range resps[i].Result {
@@ -815,6 +823,11 @@ func (c *Client) logs(ctx context.Context, url string, filter *glf.Filter, bm bl
 			return fmt.Errorf("block not found")
 		}
 		b.Lock()
+		if len(b.Header.Hash) == 32 && !bytes.Equal(b.Header.Hash, logs[0].BlockHash) {
+			b.Unlock()
+			const tag = "eth_getLogs block hash mismatch. num=%d header=%.4x logs=%.4x"
+			return fmt.Errorf(tag, k.a, b.Header.Hash, logs[0].BlockHash)
+		}
 		b.Header.Hash.Write(logs[0].BlockHash)
 		tx := b.Tx(k.b)
 		tx.PrecompHash.Write(logs[0].TxHash)
@@ -867,6 +880,10 @@ func (c *Client) traces(ctx context.Context, url string, bm blockmap, start, lim
 		block, ok := bm[res.Result[0].BlockNum]
 		if !ok {
 			return fmt.Errorf("missing block in block map")
+		}
+		if len(block.Header.Hash) == 32 && !bytes.Equal(block.Header.Hash, res.Result[0].BlockHash) {
+			const tag = "trace_block block hash mismatch. num=%d header=%.4x traces=%.4x"
+			return fmt.Errorf(tag, block.Num(), block.Header.Hash, res.Result[0].BlockHash)
 		}
 		block.Header.Hash.Write(res.Result[0].BlockHash)
 
